@@ -138,7 +138,9 @@ Record cfg := mkCfg {
   c_pool_rechecks : bool;        (* workerPoolMain reloads the node map directly before scheduling *)
   c_pool_stop_before_unload : bool; (* pool shutdown: workerStopper.Stop() (waits for running jobs) before unloadNodes() *)
   c_sched_checks_loaded : bool;    (* scheduleWorker drops a pending job whose shard is not in the pool's node map *)
-  c_stream_checks_flag : bool      (* node.canStream refuses a stream task while node.ss.streaming() *)
+  c_stream_checks_flag : bool;     (* node.canStream refuses a stream task while node.ss.streaming() *)
+  c_pool_blocks : list (string * list string)
+                                   (* workerPool.canSchedule: task kind -> in-progress maps that keep it waiting *)
 }.
 
 Definition root_sites (c : cfg) (root : string) : list site :=
@@ -266,8 +268,26 @@ Definition job_conflict (new old : jobkind) : bool :=
   | JStream, JStream => false
   | _, _ => true
   end.
-Definition pool_admits (j : jobkind) (l : list thread) : bool :=
-  forallb (fun t => match t_busy t with None => true | Some o => negb (job_conflict j o) end) l.
+(* the admission rule as the source has it (GENERATED table [c_pool_blocks]): a job of kind
+   [new] waits while a job of kind [old] of the same shard is in the pool's
+   saving / recovering / streaming map *)
+Definition task_name (j : jobkind) : string :=
+  match j with JSave => "Save" | JStream => "Stream" | JRecover | JRecoverInit => "Recover" end%string.
+Definition progress_map (j : jobkind) : string :=
+  match j with JSave => "saving" | JStream => "streaming" | JRecover | JRecoverInit => "recovering" end%string.
+Fixpoint blocks_of (t : list (string * list string)) (k : string) : list string :=
+  match t with
+  | [] => []
+  | (k', l) :: r => if String.eqb k k' then l else blocks_of r k
+  end.
+Definition admit_conflict (c : cfg) (new old : jobkind) : bool :=
+  existsb (String.eqb (progress_map old)) (blocks_of (c_pool_blocks c) (task_name new)).
+Definition pool_admits (c : cfg) (j : jobkind) (l : list thread) : bool :=
+  forallb (fun t => match t_busy t with None => true | Some o => negb (admit_conflict c j o) end) l.
+(* table condition: the generated rule is "everything excludes everything except stream/stream" *)
+Definition all_jobkinds : list jobkind := [JSave; JStream; JRecover; JRecoverInit].
+Definition pool_blocks_ok (c : cfg) : bool :=
+  forallb (fun a => forallb (fun b => Bool.eqb (admit_conflict c a b) (job_conflict a b)) all_jobkinds) all_jobkinds.
 
 (* workerPool.unloadNodes drops the busy reference of every worker *)
 Definition is_busy_t (t : thread) : bool := match t_busy t with None => false | Some _ => true end.
@@ -426,7 +446,7 @@ Definition step (c : cfg) (st : state) (a : action) : option state :=
       if pend st j && (pool_chk st || negb (c_sched_checks_loaded c))
          && (w <? List.length (thr st)) && is_idle t
          && (match t_busy t with None => true | _ => false end)
-         && pool_admits j (thr st)
+         && pool_admits c j (thr st)
       then
         let st1 := load (set_thr st (upd w (mkThr (job_sites c j) P0 (Some j)) (thr st))) in
         Some (mkState (thr st1) (destroyed st1) (closed st1) (nclose st1) (stopped st1) (cnt st1)
@@ -493,7 +513,7 @@ Definition gen_sites : list site := sites_of_table lock_table.
 Definition gen_cfg (k : kind) (nsnap : nat) : cfg :=
   mkCfg gen_sites k nsnap engine_load_inside_foreach pool_load_inside_foreach apply_checks_stopped
         pool_rechecks_before_schedule pool_stops_workers_before_unload
-        sched_checks_node_loaded can_stream_checks_streaming.
+        sched_checks_node_loaded can_stream_checks_streaming pool_blocks.
 
 (* ---- table conditions the positive theorems need (booleans, decided by computation) ---- *)
 Definition site_ok_core (s : site) : bool :=
